@@ -10,6 +10,7 @@ import SkimModel.Driver.C19
 import SkimModel.Driver.C20
 import SkimModel.Driver.C06
 import SkimModel.Driver.C07
+import SkimModel.Driver.C17
 import SkimModel.Driver.C15
 import SkimModel.Driver.C16
 import SkimModel.Driver.C18
@@ -68,6 +69,10 @@ def answer (line : String) : String :=
       | .error e => "error:" ++ e ++ "\terror"
     | "C07" =>
       match C07.handle case impl with
+      | .ok (m, v) => m ++ "\t" ++ v
+      | .error e => "error:" ++ e ++ "\terror"
+    | "C17" =>
+      match C17.handle case impl with
       | .ok (m, v) => m ++ "\t" ++ v
       | .error e => "error:" ++ e ++ "\terror"
     | "C15" => C15.answer case impl
